@@ -6,9 +6,10 @@ import json, os, shutil, subprocess, sys, time
 ROOT = os.path.dirname(os.path.dirname(os.path.abspath(__file__)))
 pid, mk = sys.argv[1], sys.argv[2]
 checks = sys.argv[3:] or [pid]
-src = '/tmp/wt_out/%s/%s' % (pid, mk)
-wt = '/tmp/wt/%s' % pid
-dst = os.path.join(ROOT, 'seeded', '%s-%s' % (pid, mk))
+# a later round of sub-agent changes lives elsewhere: SEED_SRC / SEED_WT name its directories, SEED_AS the name it is filed under
+src = '%s/%s/%s' % (os.environ.get('SEED_SRC', '/tmp/wt_out'), pid, mk)
+wt = '%s/%s' % (os.environ.get('SEED_WT', '/tmp/wt'), pid)
+dst = os.path.join(ROOT, 'seeded', '%s-%s' % (pid, os.environ.get('SEED_AS', mk)))
 def sh(cmd, **kw):
     p = subprocess.run(cmd, shell=True, capture_output=True, text=True, **kw)
     return p.returncode, (p.stdout + p.stderr)
